@@ -81,6 +81,22 @@ impl<'ast> Visit<'ast> for LoopFinder {
         let s = e.span().byte_range();
         let b = e.body.brace_token.span.open().byte_range();
         self.loops.push((s.start, b.start, s.end));
+        // D1: for (I, P) in X.iter().enumerate() { ... }
+        if let (syn::Pat::Tuple(pt), syn::Expr::MethodCall(en)) = (&*e.pat, &*e.expr) {
+            if en.method == "enumerate" && en.args.is_empty() && pt.elems.len() == 2 {
+                if let (syn::Expr::MethodCall(it), syn::Pat::Ident(_), syn::Pat::Ident(_)) = (&*en.receiver, &pt.elems[0], &pt.elems[1]) {
+                    if it.method == "iter" && it.args.is_empty() {
+                        let recv = it.receiver.span().byte_range();
+                        let p0 = pt.elems[0].span().byte_range();
+                        let p1 = pt.elems[1].span().byte_range();
+                        self.vd.push(format!(
+                            "{{\"rule\":\"D1\",\"call\":[{},{}],\"recv\":[{},{}],\"idx\":[{},{}],\"pat\":[{},{}]}}",
+                            s.start, b.start + 1, recv.start, recv.end, p0.start, p0.end, p1.start, p1.end
+                        ));
+                    }
+                }
+            }
+        }
         // D14: for PAT in X.iter().copied() { ... }
         if let syn::Expr::MethodCall(cp) = &*e.expr {
             if cp.method == "copied" && cp.args.is_empty() {
@@ -176,6 +192,52 @@ impl<'ast> Visit<'ast> for LoopFinder {
                                         ));
                                     }
                                 }
+                            }
+                        }
+                    }
+                }
+            }
+        }
+        // D2: X.iter().enumerate().filter_map(|(J, Q)| BODY).collect()      D15: X.iter().map(|P| E).collect()
+        if e.method == "collect" && e.args.is_empty() {
+            if let syn::Expr::MethodCall(fm) = &*e.receiver {
+                if fm.method == "filter_map" && fm.args.len() == 1 {
+                    if let (syn::Expr::Closure(c), syn::Expr::MethodCall(en)) = (&fm.args[0], &*fm.receiver) {
+                        if en.method == "enumerate" && en.args.is_empty() && c.inputs.len() == 1 {
+                            if let (syn::Expr::MethodCall(it), syn::Pat::Tuple(pt)) = (&*en.receiver, &c.inputs[0]) {
+                                if it.method == "iter" && it.args.is_empty() && pt.elems.len() == 2 {
+                                    let mut ef = EscapeFinder::default();
+                                    ef.visit_expr(&c.body);
+                                    if ef.escapes == 0 {
+                                        let call = e.span().byte_range();
+                                        let recv = it.receiver.span().byte_range();
+                                        let p0 = pt.elems[0].span().byte_range();
+                                        let p1 = pt.elems[1].span().byte_range();
+                                        let body = c.body.span().byte_range();
+                                        self.vd.push(format!(
+                                            "{{\"rule\":\"D2\",\"call\":[{},{}],\"recv\":[{},{}],\"idx\":[{},{}],\"pat\":[{},{}],\"body\":[{},{}]}}",
+                                            call.start, call.end, recv.start, recv.end, p0.start, p0.end, p1.start, p1.end, body.start, body.end
+                                        ));
+                                    }
+                                }
+                            }
+                        }
+                    }
+                }
+                if fm.method == "map" && fm.args.len() == 1 {
+                    if let (syn::Expr::Closure(c), syn::Expr::MethodCall(it)) = (&fm.args[0], &*fm.receiver) {
+                        if it.method == "iter" && it.args.is_empty() && c.inputs.len() == 1 && matches!(c.inputs[0], syn::Pat::Ident(_)) {
+                            let mut ef = EscapeFinder::default();
+                            ef.visit_expr(&c.body);
+                            if ef.escapes == 0 {
+                                let call = e.span().byte_range();
+                                let recv = it.receiver.span().byte_range();
+                                let pat = c.inputs[0].span().byte_range();
+                                let body = c.body.span().byte_range();
+                                self.vd.push(format!(
+                                    "{{\"rule\":\"D15\",\"call\":[{},{}],\"recv\":[{},{}],\"pat\":[{},{}],\"body\":[{},{}]}}",
+                                    call.start, call.end, recv.start, recv.end, pat.start, pat.end, body.start, body.end
+                                ));
                             }
                         }
                     }
